@@ -8,7 +8,9 @@ def extraction_crosscheck(ctx, corpus_texts, cases):
     fast, m1 = vlib.build_model(ctx, "fast"); ref, m2 = vlib.build_model(ctx, "ref")
     if fast is None or ref is None:
         ctx.ob("extraction:fast-vs-reference", "extraction", False, (m1 or "") + (m2 or "")); return
-    small = sorted(cases, key=lambda c: len(c.text()))[: (3 if ctx.quick() else 8)]
+    # the reference extraction computes on Coq's inductive binary integers: keep to short runs
+    short = [c for c in cases if int(dict(c.settings).get("max_iter", "250")) <= 3] or cases
+    small = sorted(short, key=lambda c: len(c.text()))[: (3 if ctx.quick() else 8)]
     txt = "".join(corpus_texts) + "".join(c.text() for c in small)
     cf = os.path.join(ctx.work, "xcheck.cases"); open(cf, "w").write(txt)
     rc1, o1 = vlib.run_bin(fast, cf, timeout=900); rc2, o2 = vlib.run_bin_chunked(ref, txt, ctx.work, "xref", timeout=3000, nchunks=8)
